@@ -21,6 +21,7 @@ import (
 	"fmt"
 	"go/ast"
 	"go/parser"
+	"go/printer"
 	"go/token"
 	"os"
 	"os/exec"
@@ -150,6 +151,7 @@ func main() {
 	b.WriteString("import Model.GErrClone\n/-! GENERATED on every run by harness/cmd/extract-gerror from gerror/gerror.go, factory.go and\nstack.go of the checked tree — do not edit.  What `*GError`'s factory methods hand to `CloneBase`. -/\nnamespace Generated.GerrorBase\nopen GErrClone\n\n")
 	b.WriteString("/-- method names of the `Factory` interface (without `Error`, `Is`), in declaration order -/\ndef factoryMethods : List String := [" + quoteList(factoryMethods) + "]\n\n")
 	b.WriteString("def rows : List (String × Row) := [\n" + leanRows(baseList) + "]\n\n")
+	b.WriteString(storesLean(fset, *dir))
 	fmt.Fprintf(&b, "/-- the `StackType` constants of stack.go -/\ndef stackDepths : List (StackType × Nat) :=\n  [(.noStack, %s), (.sourceStack, %s), (.shortStack, %s), (.defaultStack, %s)]\n\ndef defaultSkip : Nat := %s\n\nend Generated.GerrorBase\n",
 		consts["NoStack"], consts["SourceStack"], consts["ShortStack"], consts["DefaultStack"], consts["defaultSkip"])
 	write(filepath.Join(*out, "GerrorBase.lean"), b.Bytes())
@@ -603,4 +605,167 @@ func extractErrorParts(fd *ast.FuncDecl) []string {
 	}
 	visit(fd.Body.List)
 	return parts
+}
+
+// ---- write sets ---------------------------------------------------------------------------------
+
+// storesLean lists every store (assignment, op-assignment, ++/--) in the functions a derivation runs
+// (CloneBase and the stack helpers; the 19 methods themselves contain none), classified by where
+// the written location lives:
+//
+//	fresh   a field/element of an object the same function has just allocated (&T{…}, make, T{…})
+//	local   a local variable or parameter of the function itself (re-slicing included)
+//	shared  anything else: through a parameter, the receiver, a package-level variable
+func storesLean(fset *token.FileSet, dir string) string {
+	funcs := map[string]bool{"CloneBase": true, "makeStack": true, "pcToStackElem": true, "NearestExternal": true,
+		"getCurrentPackage": true, "SourceInfo": true, "Metric": true}
+	seen := map[string]bool{}
+	var rows []string
+	for _, file := range []string{"factory.go", "stack.go", "gerror.go"} {
+		f, err := parser.ParseFile(fset, filepath.Join(dir, file), nil, 0)
+		if err != nil {
+			fatal("%v", err)
+		}
+		for _, d := range f.Decls {
+			fd, ok := d.(*ast.FuncDecl)
+			if !ok || fd.Body == nil {
+				continue
+			}
+			isMethod := fd.Recv != nil && recvType(fd) == "GError"
+			if !funcs[fd.Name.Name] && !(file == "gerror.go" && isMethod) {
+				continue
+			}
+			seen[fd.Name.Name] = true
+			for _, st := range storesOf(fd) {
+				rows = append(rows, fmt.Sprintf("  (%s, %s, %s)", strconv.Quote(fd.Name.Name), strconv.Quote(st[0]), st[1]))
+			}
+		}
+	}
+	for fn := range funcs {
+		if !seen[fn] {
+			fatal("write sets: function %s not found", fn)
+		}
+	}
+	return "/-- every store in the code a derivation runs: (function, written expression, where it lives) -/\ndef stores : List (String × String × StoreClass) := [\n" +
+		strings.Join(rows, ",\n") + "\n]\n\n"
+}
+
+func storesOf(fd *ast.FuncDecl) [][2]string {
+	fresh := map[string]bool{} // locals bound to a fresh allocation
+	local := map[string]bool{}
+	isFresh := func(e ast.Expr) bool {
+		switch x := e.(type) {
+		case *ast.UnaryExpr:
+			if x.Op == token.AND {
+				_, ok := x.X.(*ast.CompositeLit)
+				return ok
+			}
+		case *ast.CompositeLit:
+			return true
+		case *ast.CallExpr:
+			if id, ok := x.Fun.(*ast.Ident); ok && (id.Name == "make" || id.Name == "new") {
+				return true
+			}
+		}
+		return false
+	}
+	for _, fl := range []*ast.FieldList{fd.Type.Params, fd.Type.Results} {
+		if fl == nil {
+			continue
+		}
+		for _, f := range fl.List {
+			for _, n := range f.Names {
+				local[n.Name] = true
+			}
+		}
+	}
+	var out [][2]string
+	classify := func(lhs ast.Expr) string {
+		root, depth := lhs, 0
+		for {
+			switch x := root.(type) {
+			case *ast.SelectorExpr:
+				root, depth = x.X, depth+1
+				continue
+			case *ast.IndexExpr:
+				root, depth = x.X, depth+1
+				continue
+			case *ast.StarExpr:
+				root, depth = x.X, depth+1
+				continue
+			case *ast.ParenExpr:
+				root = x.X
+				continue
+			}
+			break
+		}
+		id, ok := root.(*ast.Ident)
+		if !ok {
+			return ".shared"
+		}
+		if id.Name == "_" {
+			return ".local"
+		}
+		if depth == 0 {
+			if local[id.Name] || fresh[id.Name] {
+				return ".local"
+			}
+			return ".shared" // package-level variable
+		}
+		if fresh[id.Name] {
+			return ".fresh"
+		}
+		return ".shared"
+	}
+	text := func(e ast.Expr) string {
+		var b bytes.Buffer
+		printer.Fprint(&b, token.NewFileSet(), e)
+		return b.String()
+	}
+	ast.Inspect(fd.Body, func(n ast.Node) bool {
+		switch x := n.(type) {
+		case *ast.AssignStmt:
+			if x.Tok == token.DEFINE {
+				for i, l := range x.Lhs {
+					if id, ok := l.(*ast.Ident); ok {
+						local[id.Name] = true
+						if len(x.Rhs) == len(x.Lhs) && isFresh(x.Rhs[i]) {
+							fresh[id.Name] = true
+						}
+					}
+				}
+				return true
+			}
+			for i, l := range x.Lhs {
+				c := classify(l)
+				// re-binding a fresh local to something else ends its freshness
+				if id, ok := l.(*ast.Ident); ok && fresh[id.Name] && !(len(x.Rhs) == len(x.Lhs) && isFresh(x.Rhs[i])) {
+					if _, isSlice := x.Rhs[min(i, len(x.Rhs)-1)].(*ast.SliceExpr); !isSlice {
+						delete(fresh, id.Name)
+					}
+				}
+				out = append(out, [2]string{text(l), c})
+			}
+		case *ast.IncDecStmt:
+			out = append(out, [2]string{text(x.X), classify(x.X)})
+		case *ast.RangeStmt:
+			for _, e := range []ast.Expr{x.Key, x.Value} {
+				if id, ok := e.(*ast.Ident); ok && x.Tok == token.DEFINE {
+					local[id.Name] = true
+				}
+			}
+		case *ast.DeclStmt:
+			if gd, ok := x.Decl.(*ast.GenDecl); ok {
+				for _, sp := range gd.Specs {
+					if vs, ok := sp.(*ast.ValueSpec); ok {
+						for _, n := range vs.Names {
+							local[n.Name] = true
+						}
+					}
+				}
+			}
+		}
+		return true
+	})
+	return out
 }
